@@ -44,3 +44,12 @@ def _k_looks_regular(case, v):
     harness with segyio, recorded in the case as obs.segyio_calls_it_regular)."""
     src = case.get("src")
     return bool(src) and src.get("geom") == "irregular" and case.get("obs", {}).get("segyio_calls_it_regular") is True
+
+
+@predicate("twod_below_one_bit_refused")
+def _k_2d_low_rate(case, v):
+    """2D conversion at 1/4 or 1/2 bit per voxel is refused (cleanly): libzfp cannot produce it."""
+    s = case.get("setting") or {}
+    bs = s.get("blockshape") or [0]
+    return bs[0] == 1 and s.get("rate", 1) < 1 and v.kind in ("valid-2d-setting-refused", "valid-setting-refused") \
+        and "at least 1 bit per voxel" in v.detail
